@@ -161,6 +161,7 @@ func drvRedial(args []string) int {
 	rd := bufio.NewReaderSize(f, 1<<20)
 	app := NewApp(rec, nil)
 	CurApp = app
+	erpc.VerifPoint = tornPoint // set once, before any session exists
 	srv := erpc.NewPeer(erpc.PeerConfig{})
 	srv.RouteCall(new(T))
 	n := 0
@@ -223,7 +224,6 @@ func tornPoint(point string, sess erpc.Session, a, b int64) {
 }
 
 func runRedial(rec *Rec, app *App, fw *forwarder, sc *RedialScenario, n int) {
-	erpc.VerifPoint = tornPoint
 	budget := sc.Steps[0].Budget
 	rec.SetTrace(sc.ID, map[string]interface{}{"mode": "redial", "budget": budget})
 	fw.up()
